@@ -24,7 +24,9 @@ def run(ctx: Ctx) -> None:
 
 
 def extra(ctx: Ctx, sweep: dict) -> None:
-    pass
+    """dump side: documented outer form / the three debug_trail dumpers agree (spec/Dump.tla, MC_Dump.tla)"""
+    from ..dumpsweep import report_dump, run_dump_sweep
+    report_dump(ctx, run_dump_sweep(ctx), "C06")
 
 
 def replay(path: str) -> int:
